@@ -526,6 +526,24 @@ func hostileGraph(r *rand.Rand, tier string) *Graph {
 			f.Ptr = pick(r, hostilePtr) + "f" + f.Ptr
 		}
 	}
+	// place names that collapse to the same file key
+	if r.IntN(4) == 0 {
+		variants := pick(r, [][]string{
+			{"Sydney, Australia", "SYDNEY, Australia", "Sydney; Australia"},
+			{"St. Mary's, Kent, England", "St Mary s, Kent, England"},
+			{"Köln, Germany", "K ln, Germany", "K-ln, Germany"},
+			{"New York, USA", "new york, usa", "New York,, USA"},
+		})
+		k := 0
+		for _, p := range g.People {
+			for i := range p.Events {
+				if p.Events[i].Place != "" && r.IntN(2) == 0 {
+					p.Events[i].Place = variants[k%len(variants)]
+					k++
+				}
+			}
+		}
+	}
 	// two namesakes and a place called like them plus a number
 	if len(g.People) >= 2 && r.IntN(6) == 0 {
 		a, b := g.People[0], g.People[1]
